@@ -68,6 +68,7 @@ type Exec struct {
 
 	tagIDs map[string]int64
 	oblCache map[*ssa.Function]bool
+	frameExempt map[*Object]bool
 	fixed  map[string]int64 // cube splitting: labels fixed to constants in this run
 }
 
